@@ -339,7 +339,7 @@ def type_tables(ctx: Ctx):
                      '' if ok else f'{fn.name} falls through without raising for unsupported values', construct=f'raise:{fn.name}')
 
 
-@rule('C15.NORMALISE-ALL-PATHS', ['C15', 'C07'], min_instances=4)
+@rule('C15.NORMALISE-ALL-PATHS', ['C15', 'C07', 'C06'], min_instances=4)
 def normalise_all_paths(ctx: Ctx):
     """Every exit of immutable_param_value is tuple(<recursion over all items>), frozendict(<recursion over
     all values, keys through ensure_dict_key_str>), the value itself under a scalar-or-task guard, or
@@ -494,6 +494,34 @@ def reserved_agree(ctx: Ctx):
               and any(isinstance(s, ast.Raise) for s in ast.walk(lp)) for lp in walk_local(deco.node))
     yield ctx.ob('C15.RESERVED-AGREE', chk, deco, deco.node, 'decorator rejects classes defining a reserved name', '' if chk else
                  'the decorator does not reject task types that already define a reserved attribute', construct='reserved-check')
+
+
+@rule('C15.HOOKS-PER-TYPE', ['C15'])
+def hooks_per_type(ctx: Ctx):
+    """A hook the decorator builds *for the class being decorated* (`cls.__setstate__ = make_setstate(cls, post_init)`: a closure
+    over this type's fields / post_init) is installed on every decorated class.  Installed only under a condition (e.g. "unless
+    the class already extends a task type"), a sub-type inherits its parent's specialised hook: copies of the sub-type are
+    rebuilt with the parent's field set and the parent's post_init.  Generic module-level hooks may be installed conditionally."""
+    deco = ctx.P.func('tasks.task.<locals>.decorator')
+    cparam = deco.params[0].arg
+    g = ctx.cfg(deco)
+    n = 0
+    for a in walk_local(deco.node):
+        if not (isinstance(a, ast.Assign) and len(a.targets) == 1 and isinstance(a.targets[0], ast.Attribute)
+                and isinstance(a.targets[0].value, ast.Name) and a.targets[0].value.id == cparam):
+            continue
+        v = a.value
+        if not isinstance(v, ast.Call) or dotted(v.func) in ('property', 'dataclass', 'TaskInfo'):
+            continue
+        qs = ctx.P.resolve_call(v, deco)
+        if not any(q.startswith(f'{PKG}.') for q in qs) or any(q in ctx.P.classes for q in qs):
+            continue
+        n += 1
+        ok = g.on_all_paths_to_exit(g.entry, g.nodes_of(a) or [g.primary(a)], exc=False)
+        yield ctx.ob('C15.HOOKS-PER-TYPE', ok, deco, a, f'{cparam}.{a.targets[0].attr} (built per class) is installed on every decorated class',
+                     '' if ok else f'`{src(a)[:70]}` builds the hook for the decorated class but runs only on some paths of the decorator: a decorated '
+                     'sub-type that skips it keeps the hook built for its parent (the parent\'s fields and post_init)')
+    yield ctx.ob('C15.HOOKS-PER-TYPE', True, deco, deco.node, f'{n} hooks are built per class', construct='scan')
 
 
 @rule('C15.INIT-AGREE', ['C15'])
@@ -890,6 +918,28 @@ def enum_before_scalar(ctx: Ctx):
                  'the enum encoding does not record both the enum class and the member name', construct='enum-encoding')
 
 
+@rule('C07.SCALAR-IDENTITY', ['C07', 'C06', 'C01', 'C09'])
+def scalar_identity(ctx: Ctx):
+    """Scalars reach the key as themselves: every branch of serialize_value taken for None / str / bool / float / int values
+    returns the value unchanged.  A branch that converts some scalars (str(value), repr(value), round(value, n), ...) maps
+    them onto the image of another scalar type - float('inf') and the string 'inf' get one key - and is not undone on load."""
+    sv = ctx.P.func('serialization.Serializer.serialize_value')
+    vparam = [a.arg for a in sv.params if a.arg != sv.self_name][0]
+    n = 0
+    for c in case_table(ctx, sv, vparam):
+        if not (c.kinds & SCALARS) or (c.kinds - SCALARS):
+            continue
+        rets = [r for s in c.body for r in ast.walk(s) if isinstance(r, ast.Return)]
+        for r in rets:
+            n += 1
+            ok = isinstance(r.value, ast.Name) and r.value.id == vparam
+            yield ctx.ob('C07.SCALAR-IDENTITY', ok, sv, r, f'{sorted(c.kinds)} returned unchanged', '' if ok else
+                         f'the branch for {sorted(c.kinds)} values returns `{src(r.value) if r.value is not None else "None"}` instead of the value itself: '
+                         'converted scalars share their key (and their stored form) with values of another type')
+    if n == 0:
+        raise AnalysisError('serialize_value has no scalar pass-through branch')
+
+
 def _forbidden_chars(ctx: Ctx) -> set[str]:
     v = ctx.P.func('storage.validate_file_path_key')
     out = set()
@@ -1005,7 +1055,7 @@ def shape_disjoint(ctx: Ctx):
 # C09 (serialiser side)
 
 
-@rule('C09.SER-DESER-TABLE', ['C09', 'C07', 'C03', 'C06'], min_instances=4)
+@rule('C09.SER-DESER-TABLE', ['C09', 'C07', 'C03', 'C06', 'C08'], min_instances=4)
 def ser_deser_table(ctx: Ctx):
     """For every output shape of serialize_value, deserialize_value has a branch applying the inverse:
     marker tests first, then recursion over all list items and all dict values."""
